@@ -13,6 +13,10 @@ CHECKS = {
     text="Kernel-checked theorems over the Lean model of get_arg_ctx / get_arg_ctx_ast / _build_return_sig for ALL parameter lists, spellings and values: the argument context is a function of the binding only (spelling_invariant), a call seen in source with literal arguments gets the context of the direct call (source_eq_direct), equal contexts imply equal bindings up to the C05 canonical form (binding_injective), and the argument hashes are recoverable from the signature (sig_injective, through injectivity of the XOR-set algebra). Byte-exact correspondence of both routes and of the end-to-end signature of kept leaf functions; implementation-only oracle over all spellings x both routes.",
     note="plain (positional-or-keyword) parameters only; literals = ast.Constant; SHA-256 idealisation; C05 known collision families apply to argument values; correspondence is sampled",
     technique="Lean 4 proof (induction over parameter lists, permutation/injectivity lemmas of the symbolic XOR algebra) + byte-exact differential correspondence with dds.fun_args and end-to-end signatures"),
+ "C14": dict(
+    text="Kernel-checked theorem prefix_iff over the Lean model of is_authorized_path: a canonical path is authorised iff one of its prefixes is an accepted package, for every accepted set and every depth (plus monotonicity, sub-module inheritance, irrelevance of unrelated packages). Correspondence on all (depth 1..6) x (prefix depth) x (0..39 other packages); end-to-end implementation oracle: accepted edits change the signature, non-accepted edits do not, a non-accepted data function is refused with an error naming the module and is not executed.",
+    note="only the matching function is modelled; Python name resolution (ObjectRetrieval) and the refusal path are exercised end to end on the real code, not proved; correspondence is sampled",
+    technique="Lean 4 proof (decision logic stated outright) + differential correspondence + end-to-end oracle on generated packages"),
 }
 NOT_YET = "check not built yet in this round (work in progress, see DESIGN.md §10)"
 
